@@ -100,7 +100,7 @@ def pcapng_block(btype, body, e="<"):
     return struct.pack(e + "II", btype, total) + _pad4(body) + struct.pack(e + "I", total)
 
 
-def write_pcapng(path, items, *, endian="<", tsresol=6, tsoffset=0, snaplen=0, offset_first=False, pre_idb=(), ifaces=1, late_idb=False, idle_first=None):
+def write_pcapng(path, items, *, endian="<", tsresol=6, tsoffset=0, snaplen=0, offset_first=False, pre_idb=(), ifaces=1, late_idb=False, idle_first=None, section_length=False):
     """items: list of ('pkt', ts_us:int, frame) | ('dsb', text_bytes) | ('raw', btype, body)
     ts_us is integer microseconds since epoch; converted exactly to the chosen resolution when possible."""
     e = endian
@@ -162,6 +162,10 @@ def write_pcapng(path, items, *, endian="<", tsresol=6, tsoffset=0, snaplen=0, o
             out += pcapng_block(10, body, e)
         elif it[0] == "raw":
             out += pcapng_block(it[1], it[2], e)
+    if section_length:
+        # the Section Header Block states the real length of the section (bytes FOLLOWING the SHB) instead of -1 "unspecified"
+        shb_len = struct.unpack(e + "I", out[4:8])[0]
+        out[16:24] = struct.pack(e + "q", len(out) - shb_len)
     with open(path, "wb") as f:
         f.write(out)
 
